@@ -430,9 +430,12 @@ class Translator:
                 nalloc[0] += 1
                 decls.append("\t_Alignas(%d) unsigned char al_%d[%d];" % (2 * al, nalloc[0], a.v + al))
                 e("\t%s = (uint64_t)(uintptr_t)(al_%d + %d);" % (res, nalloc[0], al))
+                # a stack slot has indeterminate contents: poison it so that code relying on zeroes is exposed
+                e("\tmemset(al_%d + %d, 0xa5, %d);" % (nalloc[0], al, a.v))
             else:
                 e("\t%s = (uint64_t)(uintptr_t)((unsigned char *)__builtin_alloca_with_align(rt_allocsize(%s) + %d, %d) + %d);"
                   % (res, V(0, "l"), al, 2 * al * 8, al))
+                e("\tmemset((void *)(uintptr_t)%s, 0xa5, rt_allocsize(%s));" % (res, V(0, "l")))
         elif op == "vastart":
             if not f.variadic:
                 raise Unsupported("vastart in non-variadic function")
